@@ -419,6 +419,31 @@ def gen_shape_cases(rng):
     ]
     return [{"setup": setup, "sql": q, "features": ["shape"], "ordered": o, "nkeys": 0} for q, o in qs]
 
+
+def gen_dml_cases(rng):
+    """Data-modifying statements go through the optimizer too (INSERT … SELECT, DELETE … WHERE with
+    subqueries / NULL-sensitive predicates): the table content afterwards must not depend on whether the
+    statement's plan was optimized.  A case is {"setup", "dml": [statements], "probes": [queries]}."""
+    setup = gen_setup(rng, False) + ["create table r1(a int, b int)", "create table kk(id int primary key, v int)",
+                                     "insert into kk values (3, 1), (9, NULL), (1, 2)", "insert into kk values (5, 3), (2, 0), (7, 1)"]
+    k = rng.choice([0, 1, 2])
+    fams = [
+        ["insert into r1 select a, b from t1 where not (b > %d and b < %d)" % (k + 1, k)],
+        ["insert into r1 select t1.a, t2.y from t1 left join t2 on t1.a = t2.x where t2.y is null or t2.y > %d" % k],
+        ["insert into r1 select x, count(*) from t2 group by x"],
+        ["insert into r1 select a, b from t1", "delete from r1 where a in (select x from t2)"],
+        ["insert into r1 select a, b from t1", "delete from r1 where a not in (select x from t2 where x is not null)"],
+        ["insert into r1 select a, b from t1", "delete from r1 where not (a = b and b = %d)" % k],
+        ["insert into r1 select a, b from t1", "delete from r1 where exists (select 1 from t2 where t2.x = r1.a and t2.y > %d)" % k],
+        ["insert into r1 select a, b from t1", "delete from r1 where b is null or a > (select count(*) from t3)"],
+        ["delete from kk where id > %d and id <= %d" % (k, k + 5)],
+        ["delete from kk where id >= 2 and v is null", "insert into kk select id + 20, v from kk where id < 6"],
+        ["delete from t1 where a = (select max(x) from t2)"],
+        ["insert into r1 select s.x, s.c from t1 left join (select x, 5 as c from t2) s on t1.a = s.x where s.c is null"],
+    ]
+    probes = ["select a, b from r1", "select id, v from kk", "select a, b, c from t1"]
+    return [{"setup": setup, "dml": d, "probes": probes, "features": ["dml"]} for d in fams]
+
 def result_key(case, rows):
     """what the property compares: the bag; and, for ORDER BY, the sequence (all selected
     columns are ORDER BY keys in generated ordered queries, so the sequence is determined)."""
